@@ -36,8 +36,10 @@ pub(crate) fn in_order(p: &Node, q: &Node, t: &Id) -> bool {
 }
 
 //@ ob: C11.O1
+//@ rss: 2.4
+//@ time: 372
 //@ tier: quick
-//@ cap: 1200
+//@ cap: 800
 //@ standins: vcoll
 //@ desc: comparator: ClosestNodes::add(x) into a one-element accumulator [p], everything symbolic (two full ids, two full addresses, full target, real BEP42 CRC): the result is ordered (secure first, then XOR distance big-endian), contains p, and contains x unless x is refused by the per-IP rule or carries p's id
 //@ bounds: all 2^160 targets x 2 nodes with fully symbolic id/ip/port; unwind 21
@@ -76,7 +78,9 @@ fn c11_o1_singleton_add() {
 }
 
 //@ ob: C11.O2
-//@ tier: quick
+//@ rss: 6.7
+//@ time: 1714
+//@ tier: thorough
 //@ cap: 1800
 //@ standins: vcoll
 //@ desc: inductive step: an accumulator of 2 nodes satisfying Inv plus one symbolic add satisfies Inv again; the old nodes are kept in their order; the new node is inserted unless refused by the per-IP rule or its id is already present
@@ -92,7 +96,7 @@ fn c11_o2_inductive_add_2() {
 }
 
 //@ ob: C11.O2u
-//@ tier: quick
+//@ tier: thorough
 //@ cap: 1500
 //@ standins: vcoll
 //@ desc: the same inductive step as C11.O2 with the BEP42 prefix function abstracted: id_prefix_ipv4 (CRC32C of the masked IP and r) is an uninterpreted function P(ip, r), so the step holds for every way of classifying nodes as secure that is a function of (ip, r) and the id's 21-bit prefix; C11.O1 and C19.O3 bind the real CRC
@@ -206,7 +210,7 @@ fn c11_o4_take_until_secure_prefix() {
 
 //@ ob: C11.O4b
 //@ tier: quick
-//@ cap: 900
+//@ cap: 800
 //@ standins: vcoll
 //@ desc: take_until_secure on fewer than 20 nodes (n = 3) returns all of them as a prefix for symbolic est/subnets drawn from the value set
 //@ bounds: 3 concrete nodes; est in {0, 1, 1000, usize::MAX}; subnets symbolic; unwind 22 (20-byte id xor)
@@ -245,7 +249,7 @@ fn plain_node(i: u8) -> Node {
 }
 
 //@ ob: C11.O2c
-//@ tier: quick
+//@ tier: thorough
 //@ cap: 2400
 //@ standins: vcoll
 //@ also: C07
